@@ -51,6 +51,10 @@ type Op struct {
 	Tags [][2]string `json:"tags,omitempty"` // insert: sorted by key, no empty key/value (write path drops them)
 	ID   uint64      `json:"id,omitempty"`   // insert: id the implementation returned
 	Bump uint64      `json:"bump,omitempty"` // reopen: how far the id generator jumped (new base - old high-water mark)
+	// reopen after a crash in the middle of a part merge of the index table: which on-disk state was fabricated between close
+	// and open ("" = clean): A merged part in tmp, no transaction file yet; B transaction file written, nothing executed;
+	// C source part already removed, merged part still in tmp; D merged part renamed into place, transaction file still there
+	Crash string `json:"crash,omitempty"`
 	Expr *Expr       `json:"expr,omitempty"`
 	IDs  []uint64    `json:"ids,omitempty"`  // query: ids by the show-series/drop path (searchTSIDs)
 	IDs2 []uint64    `json:"ids2,omitempty"` // query: ids by the select path (SearchSeriesWithOpts)
@@ -509,8 +513,9 @@ type runner struct {
 	pats map[string]bool
 	// the last queried atom and its measurement: the next query is sometimes the same key and text under a different
 	// operator (= 'web' then =~ /web/, =~ then !~, ...), which is what result caches keyed by the filter must tell apart
-	last    *Expr
-	lastMst string
+	last     *Expr
+	lastMst  string
+	lastExpr *Expr
 }
 
 func isWordText(v string) bool {
@@ -771,6 +776,7 @@ func (rn *runner) doCondList(mst string, x *Expr) {
 	must(err)
 	var gotS, wantS []string
 	byRender := map[string][]*ser{}
+	used := map[string]int{}
 	for _, s := range rn.g.series {
 		if s.mst == mst {
 			r := render(s.mst, sortedTags(s.tags))
@@ -780,9 +786,15 @@ func (rn *runner) doCondList(mst string, x *Expr) {
 	for _, b := range got {
 		r := string(b)
 		gotS = append(gotS, r)
-		if l := byRender[r]; len(l) > 0 { // resolve the text to a written series (texts are not injective: no escaping)
-			op.Series = append(op.Series, SeriesOut{Mst: l[0].mst, Tags: sortedTags(l[0].tags)})
-			byRender[r] = l[1:]
+		if l := byRender[r]; len(l) > 0 {
+			// resolve the text to a written series. Texts are not injective (no escaping): the k-th occurrence of a text is the
+			// k-th written series with that text; a text listed more often than written (a series with two ids) repeats the last
+			k := used[r]
+			if k >= len(l) {
+				k = len(l) - 1
+			}
+			used[r]++
+			op.Series = append(op.Series, SeriesOut{Mst: l[k].mst, Tags: sortedTags(l[k].tags)})
 		} else {
 			op.Series = append(op.Series, SeriesOut{Bad: "unknown series text " + strconv.Quote(r)})
 		}
@@ -837,7 +849,94 @@ func (rn *runner) doCondList(mst string, x *Expr) {
 }
 
 func (rn *runner) doReopen() {
+	crash := ""
+	if rn.g.r.Chance(1, 3) {
+		crash = gen.Pick(rn.g.r, []string{"A", "B", "C", "D"})
+	}
+	rn.doReopenCrash(crash)
+}
+
+var partDirRe = regexp.MustCompile(`^[0-9]+_[0-9]+_[0-9A-F]{16}$`)
+var crashSeq = 0
+
+func copyDir(src, dst string) {
+	must(os.MkdirAll(dst, 0o750))
+	ents, err := os.ReadDir(src)
+	must(err)
+	for _, e := range ents {
+		if e.IsDir() {
+			copyDir(filepath.Join(src, e.Name()), filepath.Join(dst, e.Name()))
+			continue
+		}
+		b, err := os.ReadFile(filepath.Join(src, e.Name()))
+		must(err)
+		must(os.WriteFile(filepath.Join(dst, e.Name()), b, 0o640))
+	}
+}
+
+// fabricateMergeCrash puts the closed index directory into a state a kill -9 during a part merge of a mergeset table
+// leaves behind (mergeParts writes the merged part to <table>/tmp/<id>, then the transaction file <table>/txn/<id> =
+// "<source parts> \n tmp/<id> -> <final dir>", then removes the sources, renames the merged part, removes the transaction
+// file). The merge of ONE part yields a part with the same items, so a copy of the part is its merged output.
+// Returns false when the index has no file part yet.
+func fabricateMergeCrash(root, state string) bool {
+	var tables []string
+	filepath.WalkDir(root, func(p string, d os.DirEntry, err error) error {
+		if err == nil && d.IsDir() && d.Name() == "txn" {
+			tables = append(tables, filepath.Dir(p))
+		}
+		return nil
+	})
+	sort.Strings(tables)
+	for _, tb := range tables {
+		ents, err := os.ReadDir(tb)
+		if err != nil {
+			continue
+		}
+		var parts []string
+		for _, e := range ents {
+			if e.IsDir() && partDirRe.MatchString(e.Name()) {
+				parts = append(parts, e.Name())
+			}
+		}
+		if len(parts) == 0 {
+			continue
+		}
+		sort.Strings(parts)
+		src := parts[0]
+		f := strings.Split(src, "_")
+		crashSeq++
+		id := fmt.Sprintf("17FFFFFFFFFF%04X", crashSeq)
+		srcPart := filepath.Join(tb, src)
+		tmpPart := filepath.Join(tb, "tmp", id)
+		dstPart := filepath.Join(tb, fmt.Sprintf("%s_%s_%s", f[0], f[1], id))
+		txn := fmt.Sprintf("%s\n%s -> %s\n", srcPart, tmpPart, dstPart)
+		txnFile := filepath.Join(tb, "txn", id)
+		switch state {
+		case "A":
+			copyDir(srcPart, tmpPart)
+		case "B":
+			copyDir(srcPart, tmpPart)
+			must(os.WriteFile(txnFile, []byte(txn), 0o640))
+		case "C":
+			copyDir(srcPart, tmpPart)
+			must(os.WriteFile(txnFile, []byte(txn), 0o640))
+			must(os.RemoveAll(srcPart))
+		case "D":
+			copyDir(srcPart, dstPart)
+			must(os.WriteFile(txnFile, []byte(txn), 0o640))
+			must(os.RemoveAll(srcPart))
+		}
+		return true
+	}
+	return false
+}
+
+func (rn *runner) doReopenCrash(crash string) {
 	must(rn.e.b.Close())
+	if crash != "" && !fabricateMergeCrash(rn.e.dir, crash) {
+		crash = ""
+	}
 	old := uuidBase(rn.e.clock, *rn.e.seq)
 	// a restart: the partition's logical clock moves on (engine_ha.go), the sequence restarts from wall-clock seconds,
 	// which may well be BELOW the previous high-water mark
@@ -845,7 +944,7 @@ func (rn *runner) doReopen() {
 	ns := uint64(1000 + rn.g.r.Intn(50))
 	rn.e.seq = &ns
 	rn.e.open()
-	rn.c.Ops = append(rn.c.Ops, Op{Op: "reopen", Bump: uuidBase(rn.e.clock, ns) - old})
+	rn.c.Ops = append(rn.c.Ops, Op{Op: "reopen", Bump: uuidBase(rn.e.clock, ns) - old, Crash: crash})
 }
 
 const probeMst = "zzprobe_0000"
@@ -963,7 +1062,10 @@ func genCase(r *gen.Rand, dir string, i int) *Case {
 			}
 			mst := gen.Pick(r, ms)
 			var x *Expr
-			if rn.last != nil && r.Chance(1, 4) {
+			if rn.lastExpr != nil && r.Chance(1, 6) {
+				// the same predicate once more in the same index lifetime: plans depend on costs cached by earlier evaluations
+				mst, x = rn.lastMst, rn.lastExpr
+			} else if rn.last != nil && r.Chance(1, 4) {
 				mst = rn.lastMst
 				x = relatedAtom(rn.last, r)
 				if r.Chance(1, 3) { // under an AND, so that the multi-filter path (cost order, pruning) sees it too
@@ -976,7 +1078,7 @@ func genCase(r *gen.Rand, dir string, i int) *Case {
 			var as []*Expr
 			atomsOf(x, func(a *Expr) { as = append(as, a) })
 			if len(as) > 0 {
-				rn.last, rn.lastMst = as[r.Intn(len(as))], mst
+				rn.last, rn.lastMst, rn.lastExpr = as[r.Intn(len(as))], mst, x
 			}
 		default:
 			if dirty {
@@ -1063,6 +1165,108 @@ func genSweeps(r *gen.Rand, base string, idx *int) []*Case {
 	return out
 }
 
+// genDense: one measurement with 14-22 series whose tag keys differ a lot in selectivity (host: one series per value;
+// region: two values or absent; a=b: few values or absent), and AND-only predicates of 2-3 filters, each evaluated three
+// times in a row, once more after a cache clear and once more after a reopen. The select path orders the filters of an
+// AND-only predicate by the cost cached by earlier evaluations and checks the expensive ones against the series keys of the
+// current candidates (doPrune) - the second evaluation of a predicate can take another plan than the first.
+func genDense(r *gen.Rand, dir string, i int) *Case {
+	rn := newRunner(r, dir, i, "dense")
+	g := rn.g
+	mst := gen.Pick(r, msts)
+	hv := append([]string{}, vals...)
+	for j := range hv {
+		k := j + r.Intn(len(hv)-j)
+		hv[j], hv[k] = hv[k], hv[j]
+	}
+	n := r.Range(14, 22)
+	regions := []string{gen.Pick(r, vals[:12]), gen.Pick(r, vals[:12])}
+	third := gen.Pick(r, tagKeys[3:])
+	for k := 0; k < n && k < len(hv); k++ {
+		var tags [][2]string
+		if hv[k] != "" && !r.Chance(1, 8) {
+			tags = append(tags, [2]string{"host", hv[k]})
+		}
+		if !r.Chance(1, 3) {
+			tags = append(tags, [2]string{"region", gen.Pick(r, regions)})
+		}
+		if r.Bool() {
+			tags = append(tags, [2]string{third, gen.Pick(r, vals[:6])})
+		}
+		sort.Slice(tags, func(a, b int) bool { return tags[a][0] < tags[b][0] })
+		rn.doInsert(mst, tags)
+	}
+	rn.e.b.Flush()
+	rn.c.Ops = append(rn.c.Ops, Op{Op: "flush"})
+	otherAtom := func() *Expr {
+		k := gen.Pick(r, []string{"region", third, "host", "hos"})
+		a := &Expr{T: "atom", K: k}
+		var have []string
+		for _, s := range g.series {
+			if v, ok := s.tags[k]; ok {
+				have = append(have, v)
+			}
+		}
+		v := gen.Pick(r, vals)
+		if len(have) > 0 && r.Chance(3, 4) {
+			v = gen.Pick(r, have)
+		}
+		if r.Chance(1, 6) {
+			v = ""
+		}
+		switch r.Intn(8) {
+		case 0, 1:
+			a.O, a.V = "eq", v
+		case 2, 3, 4:
+			a.O, a.V = "neq", v
+		case 5:
+			a.O, a.V = "re", gen.Pick(r, pats)
+		case 6:
+			a.O, a.V = "nre", gen.Pick(r, pats)
+		default:
+			a.O, a.Vs = "notin", []string{v, gen.Pick(r, vals)}
+		}
+		return a
+	}
+	np := r.Range(4, 6)
+	var preds []*Expr
+	for p := 0; p < np; p++ {
+		s := gen.Pick(r, g.series)
+		// a selective first filter: the host value (or another tag) of one written series
+		var x *Expr
+		if hvv, ok := s.tags["host"]; ok && !r.Chance(1, 5) {
+			x = &Expr{T: "atom", K: "host", O: "eq", V: hvv}
+		} else {
+			x = otherAtom()
+		}
+		for extra := 1 + r.Intn(2); extra > 0; extra-- {
+			if r.Bool() {
+				x = &Expr{T: "and", L: x, R: otherAtom()}
+			} else {
+				x = &Expr{T: "and", L: otherAtom(), R: x}
+			}
+		}
+		preds = append(preds, x)
+		for rep := 0; rep < 3; rep++ {
+			rn.doQuery(mst, x)
+		}
+	}
+	must(rn.e.b.ClearCache())
+	rn.c.Ops = append(rn.c.Ops, Op{Op: "clear"})
+	for _, x := range preds {
+		rn.doQuery(mst, x)
+		rn.doQuery(mst, x)
+	}
+	rn.doReopen()
+	for _, x := range preds {
+		rn.doQuery(mst, x)
+		rn.doQuery(mst, x)
+	}
+	rn.finishAtoms()
+	must(rn.e.b.Close())
+	return rn.c
+}
+
 // pairsCase: a fixed series set and, for a few texts, every ordered pair of operators (= != =~ !~) on the same key and text,
 // the two queries back to back on both search paths with the caches emptied before each pair: whatever is cached for the first
 // filter must not answer the second one.
@@ -1126,7 +1330,7 @@ func replayCase(in *Case, dir string, i int) *Case {
 			must(rn.e.b.ClearCache())
 			rn.c.Ops = append(rn.c.Ops, Op{Op: "clear"})
 		case "reopen":
-			rn.doReopen()
+			rn.doReopenCrash(op.Crash)
 		case "query":
 			rn.doQuery(op.Mst, op.Expr)
 		case "list":
@@ -1194,6 +1398,17 @@ func main() {
 		nsweep := 2
 		if gen.Tier() != "quick" {
 			nsweep = 12
+		}
+		ndense := 8
+		if gen.Tier() != "quick" {
+			ndense = 120
+		}
+		rd := gen.FromEnv(12)
+		for k := 0; k < ndense; k++ {
+			dir := filepath.Join(base, fmt.Sprintf("d%d", idx))
+			gen.Emit(genDense(rd.Fork(), dir, idx))
+			os.RemoveAll(dir)
+			idx++
 		}
 		rs := gen.FromEnv(11)
 		for k := 0; k < nsweep; k++ {
